@@ -638,7 +638,13 @@ func (sp *subProcess) NextAction(ctx context.Context, flow Flow) chan IAction {
 	}
 
 	response := make(chan IAction, 1)
-	sp.mch <- nextActionMessage{response: response}
+	// the node's goroutine ends with the context: nobody may be left to take the
+	// token, which then leaves on its own cancellation (a nil channel never fires)
+	select {
+	case sp.mch <- nextActionMessage{response: response}:
+	case <-ctx.Done():
+		return nil
+	}
 	return response
 }
 
@@ -651,7 +657,12 @@ func (sp *subProcess) Type() ActivityType {
 }
 
 func (sp *subProcess) Cancel() <-chan bool {
-	response := make(chan bool)
-	sp.mch <- cancelMessage{response: response}
+	response := make(chan bool, 1)
+	select {
+	case sp.mch <- cancelMessage{response: response}:
+	case <-sp.ctx.Done():
+		// the run loop is gone (its context ends with it): nothing left to cancel
+		response <- true
+	}
 	return response
 }
